@@ -188,6 +188,16 @@ impl Gen {
             let v = if self.rng.chance(1, 10) { self.blob() } else { let n = self.rng.below(12) as usize; self.rng.bytes(n) };
             s.set_param(k as u16, v).unwrap();
         }
+        // a value with a history: a parameter set again with another value (of another length), as an application that
+        // updates a port or an address list does - what is written is the last value, and its length
+        if self.rng.chance(1, 4) {
+            let existing: Vec<(u16, usize)> = s.iter_params().map(|(k, v)| (k, v.len())).collect();
+            if let Some((k, l)) = existing.first().cloned() {
+                let n = if self.rng.chance(1, 2) { l + 1 + self.rng.below(9) as usize } else { l / 2 };
+                let v2 = self.rng.bytes(n);
+                s.set_param(k, v2).unwrap();
+            }
+        }
         s
     }
 
